@@ -1114,19 +1114,7 @@ def run_c17(ctx) -> Corr:
 
     asyncio.run(main())
 
-    # ---- accounting
-    for (ops, info), obs in zip(cases, all_obs):
-        src = info["source"].split(":")[0]
-        corr.count(f"cases:{src}")
-        for o in obs:
-            if o.startswith(("line", "wait", "err", "foreign")):
-                corr.count("outcome:" + o.split(" ")[0] + (":" + o.split(" ")[1] if o.startswith(("err", "foreign")) else ""))
-        nchunks = sum(1 for o in ops if o[0] == "feed")
-        nontriv = nchunks >= 2 or any(o.startswith(("err", "foreign")) for o in obs) or src.startswith("fault")
-        h = hashlib.sha1(repr((ops, obs)).encode()).hexdigest()
-        small = len(ops) <= 14
-        corr.case(h, nontriv, {**info, "ops": [model_line(o) for o in ops], "observed": obs} if small else None)
-
+    # ---- accounting (the concurrent cases first, so that two of them are among the evidence's samples)
     # concurrent cases; those that are pure contention (writes, block, release only) have a sequential reading:
     # the writes one after the other in call order, which is an operation list of the model
     cmodel: list[tuple[list[str], list[str], dict]] = []
@@ -1142,9 +1130,9 @@ def run_c17(ctx) -> Corr:
         for o in wouts:
             corr.count("concurrent:write-outcome:" + " ".join(o.split(" ")[:2]))
         h = hashlib.sha1(repr((cops, limit, history)).encode()).hexdigest()
+        show = len(corr.samples) < 2 and len(cops) <= 6 and overlapped and len(kinds) >= 4
         corr.case(h, overlapped or bool(kinds & {"d", "lose"}),
-                  {**info, "limit": limit, "history": history, "stream": data.hex()}
-                  if len(cops) <= 6 and overlapped and len(kinds) >= 4 else None)
+                  {**info, "limit": limit, "history": history, "stream": data.hex()} if show else None)
         if kinds <= {"w", "block", "release"}:
             texts = [o[1] for o in cops if o[0] == "w"]
             cmodel.append(([f"snew {limit}", *[f"write {enc(x)} -" for x in texts], "out"],
@@ -1157,6 +1145,18 @@ def run_c17(ctx) -> Corr:
                       "holds the lines of the successful writes whole and in call order, disconnect returns normally, "
                       "nothing hangs); only the pure-contention cases (no disconnect, no loss) are also compared with the "
                       "model, read as the same writes one after the other in call order")
+
+    for (ops, info), obs in zip(cases, all_obs):
+        src = info["source"].split(":")[0]
+        corr.count(f"cases:{src}")
+        for o in obs:
+            if o.startswith(("line", "wait", "err", "foreign")):
+                corr.count("outcome:" + o.split(" ")[0] + (":" + o.split(" ")[1] if o.startswith(("err", "foreign")) else ""))
+        nchunks = sum(1 for o in ops if o[0] == "feed")
+        nontriv = nchunks >= 2 or any(o.startswith(("err", "foreign")) for o in obs) or src.startswith("fault")
+        h = hashlib.sha1(repr((ops, obs)).encode()).hexdigest()
+        small = len(ops) <= 14
+        corr.case(h, nontriv, {**info, "ops": [model_line(o) for o in ops], "observed": obs} if small else None)
 
     # ---- the model
     if ctx.model_ok:
